@@ -954,8 +954,15 @@ func c07Held(c *Ctx, cs c14Case) {
 	fresh := cl.NextVal(0)
 	const freshTTL = 900 * time.Millisecond
 	f0 := time.Now()
-	cl.Set(0, fresh, 1, freshTTL)
+	accepted := cl.Set(0, fresh, 1, freshTTL)
 	e.sw.releaseHold()
+	// If the sweep had already collected key 0, this write is a NEW item: it becomes visible when the applier - the
+	// goroutine that is running the sweep - gets to it. Only after Wait is its visibility promised.
+	cl.Wait()
+	if !accepted {
+		r.Inconc(1)
+		return
+	}
 	for _, at := range []time.Duration{100, 300, 500, 700} {
 		time.Sleep(time.Until(f0.Add(at * time.Millisecond)))
 		v, ok := cl.Get(0)
